@@ -1,22 +1,32 @@
 """C10 — contextmerge changes only the named paths; default never overwrites.
 
-Correspondence: real `Context.merge` / `Context.set_defaults` and the real steps
-`pypyr.steps.contextmerge` / `pypyr.steps.default` against `Merge.merge` / `setDefaults` / `runStep`
-(final context, error name). Monitors judged on the implementation alone: frame condition (paths not
-named keep value and identity), overwrite/extend table, defaults never overwrite and add exactly the
-missing keys, incoming mapping deep-equal before/after (also for ruamel CommentedMap inputs).
+A case is one operation or a SEQUENCE of operations (merge / set_defaults / the two steps) on ONE Context.
+Correspondence, two models: tree level `Merge.merge` / `setDefaults` / `runStep` / `runOps` (final context,
+error name, index of the failing operation) and heap level `MergeHeap.runOpsH` on the heap reading of the very
+same objects (identity graph of the context and of every incoming mapping afterwards: what is whose object,
+what is new, what is shared). Monitors judged on the implementation alone, per operation: frame condition
+(paths not named keep value and identity), overwrite/extend table, defaults never overwrite and add exactly
+the missing keys with their once-formatted value; every incoming mapping deep-equal and identity-equal to
+its snapshot after its own AND after every later operation; a step leaves the context exactly as
+Context.merge / set_defaults of context[key] on a deep copy of the same context does. Any exception of the
+implementation (RecursionError included) is an observation, a call that does not return within 10 s a failure.
 """
 from .. import common
 from .. import impl_c10 as I
-from ..impl_c09 import canon_wire
+from ..impl_c09 import canon_wire, model_graph
 
 LEAN_MODULES = ['Props.C10']
-TRUSTED = ['harness/props/c10.py + harness/impl_c10.py (tree-pair generators, canonicaliser, monitors)',
+TRUSTED = ['harness/props/c10.py + harness/impl_c10.py (tree-pair / sequence generators, canonicaliser, monitors), '
+           'harness/impl_c09.py (object graph <-> heap cells, identity graphs, snapshots, per-case time limit)',
            'the real formatter as a primitive of the monitors (named keys, expected formatted values)',
            'CPython dict/list/set semantics, copy.deepcopy']
 ASSUMPTIONS = [
-    'trees: no aliasing between context values or between incoming mapping and context (alias streams '
-    'report the known findings)',
+    'tree level: no aliasing between context values or between incoming mapping and context (alias streams '
+    'report the known findings); heap level: whatever sharing the generated objects have is in the model',
+    'incoming_unmodified is proved for sequences of merge / set_defaults calls whose incoming mappings share no '
+    'list / dict with the context; a step stores its input mapping IN the context (separation does not hold): for '
+    'steps the claim rests on runOp_step_is_merge + the monitors',
+    'CPython identity facts mirrored by the heap model: t + () and () + t hand back the exact-tuple operand',
     'Python key equality 1 == True == 1.0 is outside the modelled domain (never generated)',
     'formatting expressions use the simple grammar of PypyrModel/Fmt.lean',
     'on an exception only the error name is compared (the partially merged context is still monitored)',
@@ -28,16 +38,70 @@ MODEL_OP = {'merge': 'merge.merge', 'defaults': 'merge.defaults', 'step-merge': 
 
 def request(case):
     op = case['op']
+    if op == 'seq':
+        return 'merge.seq', {'ctx': case['ctx'], 'ops': case['ops']}
     if op in ('merge', 'defaults'):
         return MODEL_OP[op], {'ctx': case['ctx'], 'add': case['add']}
     return 'merge.step', {'ctx': case['ctx'], 'which': 'contextmerge' if op == 'step-merge' else 'default'}
 
 
+def check_heap(env, res, todo):
+    """Heap level: the same operations on the same objects in `MergeHeap.runOpsH`; the identity graph of the
+    context and of every incoming mapping afterwards (who is the same object as whom, what is an object of the
+    input, what is new) must be the implementation's."""
+    outs = env.driver.ask_many([('merge.seqHeap', {'cells': hp['cells'], 'root': hp['root'], 'ops': hp['ops']})
+                                for _, _, hp in todo])
+    for (case, iobs, hp), hout in zip(todo, outs):
+        if isinstance(hout, common.Reject):
+            res.count('heap-rejected:' + str(hout)[:50])
+            continue
+        res.count('heap:compared')
+        if 'ok' in hout:
+            cells, n0 = hout['ok']['cells'], hout['ok']['n0']
+            roots = [hp['root']] + [o['add'] for o in hp['ops'] if 'add' in o]
+            mobs = {'ok': model_graph(cells + [{'list': [0, roots]}], len(cells), n0)}
+            if any(cells[i] != hp['cells'][i] for r in roots[1:] for i in reach(hp['cells'], r)):
+                res.count('heap:model-writes-incoming')       # only when context and incoming share objects
+        else:
+            mobs = {'err': 'RecursionError' if hout['err']['name'] == 'OutOfFuel' else hout['err']['name'],
+                    'at': hout['at']}
+        icmp = {'err': iobs['err'], 'at': iobs['at']} if 'err' in iobs else {'ok': hp.get('graph')}
+        if mobs != icmp:
+            res.mismatch(case, mobs, icmp, 'heap-level: identity graph of context + incoming mappings / error differ')
+
+
+def reach(cells, r, seen=None):
+    seen = set() if seen is None else seen
+    if r in seen:
+        return seen
+    seen.add(r)
+    c = cells[r]
+    for kind in ('list', 'tuple', 'set'):
+        if kind in c:
+            for x in c[kind][1]:
+                reach(cells, x, seen)
+    if 'dict' in c:
+        for k, v in c['dict'][1]:
+            reach(cells, k, seen)
+            reach(cells, v, seen)
+    for kind in ('sic', 'jsonify'):
+        if kind in c:
+            reach(cells, c[kind], seen)
+    return seen
+
+
 def check_cases(env, res, cases, known_sig=None):
     drv = env.driver
     outs = drv.ask_many([request(c) for c in cases]) if known_sig is None else [None] * len(cases)
+    heap_todo = []
     for case, mout in zip(cases, outs):
         iobs, fails = I.run_impl(case)
+        hp = iobs.pop('heap', None)
+        if known_sig is None and hp is not None:
+            if 'skip' in hp:
+                res.count('heap-skipped:' + hp['skip'])
+            else:
+                heap_todo.append((case, iobs, hp))
         stream = case['stream'].split(':')[0]
         res.count('stream:' + stream)
         res.count('op:' + case['op'])
@@ -52,29 +116,43 @@ def check_cases(env, res, cases, known_sig=None):
             res.count('rejected:' + str(mout)[:50])
             continue
         res.case(case)
+        seq = case['op'] == 'seq'
+        if seq:
+            res.count('seq:' + '>'.join(o['op'] for o in case['ops']))
         if 'ok' in mout:
             mobs = {'ok': canon_wire(mout['ok']['ctx'])}
             for w in mout['ok']['trace']:
                 res.count('trace:' + ('write' if w[1] else 'descend') + f':depth{len(w[0])}')
         else:
-            mobs = {'err': mout['err']['name']}
-        icmp = {'err': iobs['err']} if 'err' in iobs else iobs
+            # divergence class: a self-referential expression ('{{b}}' stored as '{b}' under b by an earlier
+            # operation) recurses until RecursionError; the model runs out of fuel
+            mobs = {'err': 'RecursionError' if mout['err']['name'] == 'OutOfFuel' else mout['err']['name']}
+            if seq:
+                mobs['at'] = mout['at']
+        icmp = ({'err': iobs['err'], 'at': iobs['at']} if seq else {'err': iobs['err']}) if 'err' in iobs else iobs
         if mobs != icmp:
             res.mismatch(case, mobs, icmp, 'final context / error differ')
+    if heap_todo:
+        check_heap(env, res, heap_todo)
 
 
 def run(env, res):
     res.rule = ('directed: existing kind x incoming kind (9 x 9) at depth 1-3 x {plain, value expression, key '
                 'expression, both} for merge and set_defaults, root-threading cases, step argument handling; '
-                'random: context tree + incoming tree derived from it with expressions referring to keys merged '
-                'earlier in the same call; non-trivial = distinct case that reached both sides; alias streams: '
-                'monitors only (known findings)')
+                'format-once family (escaped braces, :ff over braces-holding strings, !sic, entries referring to keys an '
+                'earlier entry writes) x 4 operations; SEQUENCES of 2-4 operations on one context: accumulator '
+                'initialisers ([] {} set() () \'\' 0 None False b\'\' and small non-empty ones) at depth 1-3 x first '
+                'operation x second operation + growth by a third, key / value expressions re-resolved after the key '
+                'they refer to was rebound in between; random: context tree + incoming tree derived from it with '
+                'expressions referring to keys merged earlier in the same call, 45 % as sequences whose later incoming '
+                'mappings are derived from earlier ones; non-trivial = distinct case that reached both sides; every '
+                'case also through the heap-level model; alias streams: monitors only (known findings)')
     for case, sig in I.alias_cases():
         check_cases(env, res, [case], known_sig=sig)
     directed = I.directed_cases()
     for i in range(0, len(directed), 500):
         check_cases(env, res, directed[i:i + 500])
-    n = env.n(3000, 60000)
+    n = env.n(3000, 40000)
     batch = []
     for _ in range(n):
         batch.append(I.random_case(env.rng))
